@@ -397,6 +397,20 @@ def _validate_original_url(url: str, prefix: str) -> str:
     return url
 
 
+def _has_browser_divergent_chars(url: str) -> bool:
+    """Report characters that make a browser's URL parser and ``urlparse`` disagree.
+
+    Args:
+        url: The candidate redirect target.
+
+    Returns:
+        ``True`` when *url* contains a backslash, whitespace, a C0 control
+        character or DEL.
+
+    """
+    return "\\" in url or any(ord(ch) <= 0x20 or ord(ch) == 0x7F for ch in url)
+
+
 def _is_localhost(hostname: str) -> bool:
     """Check if a hostname is localhost (any port)."""
     return hostname in ("localhost", "127.0.0.1", "[::1]")
@@ -414,6 +428,12 @@ def _validate_return_to(url: str, allowed_origins: frozenset[str] = frozenset())
     port for localhost) are checked — any path is permitted.
     """
     if not url or len(url) > 2048:
+        return ""
+    # Browsers treat a backslash as a slash, so it ends the authority, and they
+    # drop tab/CR/LF and surrounding whitespace before parsing; urlparse does
+    # neither.  Such a URL would be validated against one host and then
+    # navigated to another, so it is refused outright.
+    if _has_browser_divergent_chars(url):
         return ""
     parsed = urlparse(url)
     if parsed.scheme not in ("http", "https"):
